@@ -21,9 +21,11 @@ run_demo() {
   fi
 }
 run_demo; with=$?
-git stash -q -- cylc
+# (no git stash: the stash is shared by all worktrees of a repository)
+git diff -- cylc > /dev/shm/seed-$id.cur.patch
+git apply -R /dev/shm/seed-$id.cur.patch
 run_demo; without=$?
-git stash pop -q
+git apply /dev/shm/seed-$id.cur.patch
 echo "demo: with-change exit=$with  without-change exit=$without"
 PATH=/venv/bin:$PATH PYTHONPATH=$wt /venv/bin/python -m pytest -q -p no:cacheprovider -x --co -q tests/unit >/dev/null 2>&1
 PATH=/venv/bin:$PATH PYTHONPATH=$wt /venv/bin/python -m pytest -q -p no:cacheprovider tests/unit "$@" 2>&1 | tail -15 > /dev/shm/seed-$id-tests.log
